@@ -281,8 +281,10 @@ def process_template(path, crate, repo, gen=None, depth=0):
                 j = i
             # region tags inside the sidecar: resolved after weaving (they travel with the text as comments)
             nb = []
+            shares_sig = False
             for bl in body:
                 if bl.strip().startswith('//@sig-of '):
+                    shares_sig = True
                     other = bl.strip().split()[1]
                     if other not in sidecars:
                         raise ExtractionError(f'{rel}:{i+1}: //@sig-of {other}: unknown function')
@@ -362,7 +364,9 @@ def process_template(path, crate, repo, gen=None, depth=0):
             gen.functions[out_name]['cone'] = sorted(set(gen.functions[out_name]['props']) | side_tags | set(gen.functions[out_name]['auto']))
             props = frozenset(gen.functions[out_name]['props'])
             auto = frozenset(t + ':auto' for t in gen.functions[out_name]['auto'])
-            if kw == 'twin':
+            # an async function that takes its whole contract from its sync twin (`//@sig-of`) and is listed for C12 is a twin as well
+            is_twin = kw == 'twin' or (shares_sig and any(t == 'C12' or t.startswith('C12:') for t in props))
+            if is_twin:
                 props = props | frozenset(['C12:twin_contract'])
                 auto = auto | frozenset(['C12:twin_contract'])
             ftags = props
@@ -371,7 +375,7 @@ def process_template(path, crate, repo, gen=None, depth=0):
                 if mt:
                     tg = mt.group(1).split()
                     ftags = props if tg == ['@props'] else auto if tg == ['@auto'] else frozenset(tg)
-                    if kw == 'twin':
+                    if is_twin:
                         # an async twin is verified against the SAME contract as its sync twin: any failed obligation in it is also a C12 failure
                         ftags = ftags | frozenset(['C12:twin_contract'])
                     wl = wl[:mt.start()].rstrip()
